@@ -32,6 +32,8 @@ PROPS = {
     "C05": dict(run="^TestC05$", shards=(4, 16), deadline=(300, 1800)),
     "C06": dict(run="^TestC06$", shards=(4, 16), deadline=(300, 1800)),
     "C07": dict(run="^TestC07$", shards=(4, 16), deadline=(300, 1800)),
+    "C09": dict(run="^TestC09$", shards=(4, 16), deadline=(300, 1800)),
+    "C10": dict(run="^TestC10$", shards=(4, 16), deadline=(300, 1800)),
     "C11": dict(run="^TestC11$", shards=(4, 16), deadline=(300, 1800)),
     "C14": dict(run="^TestC14$", shards=(4, 16), deadline=(300, 1800)),
     "C19": dict(run="^TestC19$", shards=(4, 16), deadline=(300, 1800)),
